@@ -593,12 +593,16 @@ def report(ctx, scs, traces, verdicts, clauses, pid):
 
 def report_unbound(ctx):
     for name in sorted(n2.UNBOUND):
+        if name.endswith("_process_NP21"):
+            ctx.spec_drift(f"entry point {name} does not exist in this code: the scenarios that pass offset / assert_shanks to the NP2.1 "
+                           "path (process() does not forward them) are skipped")
+            continue
         ctx.spec_drift(f"instrumentation point {name} does not exist in this code: the window loop of spec/sys/NP2Split.tla is not bound, "
                        "the runs are judged on the files they leave (black box)")
 
 
 def selftest(ctx, traces, bad, clauses):
-    if n2.UNBOUND:
+    if "NP2Converter._ind2save" in n2.UNBOUND:
         return   # black-box mode: there are no window events to corrupt (already reported as drift)
     good = [i for i, t in enumerate(traces) if i not in bad and t["status"] == 1 and len(t["wins"]) >= 3][:6]
     if len(good) < 3:
